@@ -29,9 +29,17 @@ def gen(rng, d, n, prefix, depth2_ratio=0.3, mix=None):
         tr = foreign.Truth(descs)
         flat = tr.flat()
         bsb, l2, rb = hist.rand_params(rng, top.cluster_bits)
-        while any(dd.size % (1 << bsb) for dd in descs) and bsb > 9:   # every image of the chain is read at block granularity
-            bsb -= 1
+        # every image of the chain is read at block granularity: with a block size that does not divide the size of
+        # one of them, the last partial block of that image is unreachable (known finding F32).  One case in ten keeps
+        # such a block size and is matched against that finding only; the others use a dividing block size.
+        misfit = False
+        if any(dd.size % (1 << bsb) for dd in descs) and rng.random() < 0.1:
+            misfit = True
+        else:
+            while any(dd.size % (1 << bsb) for dd in descs) and bsb > 9:
+                bsb -= 1
         g = hist.Geom(top.cluster_bits, top.refcount_order, top.size, bsb, l2, rb, punch=rng.choice([1, 1, 0]))
+        g.bs_misfit = misfit
         # short histories too: a single operation whose effect nothing else re-dirties or repairs
         nops = rng.choice([1, 1, 2, 3]) if rng.random() < 0.3 else rng.randrange(3, 25)
         ops = hist.gen_ops(rng, g, nops, mix=mix or {'W': 50, 'R': 25, 'D': 8, 'F': 8, 'K': 3, 'S': 2, 'N': 2}, flush_end=nops > 3)
@@ -89,6 +97,11 @@ def run_foreign(prop, tier, seed, projections, n, explanation, mix=None, extra_j
         f = mine[0]
         counts[f[0]] += 1
         kf = [x for x in kfs if x.get('match', {}).get('projection') == f[0] and (not x['match'].get('desc_contains') or x['match']['desc_contains'] in f[2])]
+        if getattr(c['g'], 'bs_misfit', False):
+            # this case exists only to show F32; anything it finds is attributed to it
+            kf = [x for x in kfs if x.get('match', {}).get('predicate') == 'bs_misfit']
+            if not kf:
+                continue
         if kf:
             if not any(y.startswith(kf[0]['id'] + ' ') for y in known):
                 known.append('%s %s (e.g. %s)' % (kf[0]['id'], kf[0]['what'], f[2][:200]))
